@@ -32,6 +32,8 @@ PROP = dict(
         "go.mod contents vary: LF and CRLF line ends, a blank or tab after the module path, a trailing blank line, a `go 1.x` line, "
         "module paths with dots/dashes/underscores/slashes/spaces; nested modules' go.mod (copied, never parsed) additionally EMPTY, "
         "without final newline or with a leading comment (for the main script's module the last three are KF-bundle-sentinel-syntax)",
+        "a nested module's DECLARED module path need not mirror its directory: main path + '/gen' or '/x/y', the main path itself, "
+        "a sibling ('<main>2'), or an unrelated path",
         "EMPTY files: empty nested go.mod, empty .txt/.b data (implicit and //encoding.bytes / failing //encoding.json decoders), empty "
         ".arrai read through //encoding.bytes; the archive file list lists zero-length entries. A plain import of an empty .arrai "
         "(a parse error on both sides) is not generated: the model does not parse script bytes",
